@@ -111,6 +111,34 @@ fn check_msin(b: u8) -> CheckResult {
     if back != b {
         return Err(viol!("msin:reencode", "MSIN {:#04x} re-encodes to {:#04x} ({:?})", b, back, got));
     }
+    // the sub-type conversions called directly: each reads the MTIN nibble of the message-info byte (whatever its other
+    // bits hold) and writes it back into bits 4-7
+    {
+        use dlt_core::dlt::{ApplicationTraceType, ControlType, LogLevel, NetworkTraceType};
+        let mtin = b & 0xf0;
+        macro_rules! sub {
+            ($ty:ident, $mstp:expr, $variant:ident) => {{
+                let want_sub = match message_type_of(mtin | ($mstp << 1)) {
+                    MessageType::$variant(x) => x,
+                    other => return Err(viol!("msin:table", "layout table gives {:?} for MSTP {}", other, $mstp)),
+                };
+                let got_sub = guard(|| $ty::try_from(b)).map_err(|p| Violation::from_panic(&format!("{}::try_from({:#04x})", stringify!($ty), b), &p))?;
+                match got_sub {
+                    Ok(g) if g == want_sub => {
+                        let back = guard(|| u8::from(&g)).map_err(|p| Violation::from_panic(&format!("u8::from(&{})", stringify!($ty)), &p))?;
+                        if back != mtin {
+                            return Err(viol!(format!("msin:{}:reencode", stringify!($ty)), "{:?} re-encodes to {:#04x}, its code is {:#04x}", g, back, mtin));
+                        }
+                    }
+                    other => return Err(viol!(format!("msin:{}:decode", stringify!($ty)), "{}::try_from({:#04x}) = {:?}, the layout prescribes {:?} for MTIN {}", stringify!($ty), b, other, want_sub, b >> 4)),
+                }
+            }};
+        }
+        sub!(LogLevel, 0u8, Log);
+        sub!(ApplicationTraceType, 1u8, ApplicationTrace);
+        sub!(NetworkTraceType, 2u8, NetworkTrace);
+        sub!(ControlType, 3u8, Control);
+    }
     // through a message with extended header
     let mut m = vec![0x21u8, 0, 0, 0, b, 0];
     m.extend_from_slice(b"APP\0CTX\0");
